@@ -773,6 +773,14 @@ pub fn quiescent_accounting(hx: &Hx, prop: &str, v: &mut Verdict) {
                 hx.len,
             );
         }
+        if let Some(stuck) = o.store.iter().find(|s| s.3) {
+            v.fail(
+                "C05",
+                format!("C05/held-key-soft-deleted-at-quiescence/conc,{}", pair),
+                format!("at quiescence (every command acknowledged) k{} (id {}) is still held and charged but marked deleted: it can neither be read nor put again", stuck.0, stuck.1),
+                hx.len,
+            );
+        }
         let sum: i64 = o.weights.iter().map(|w| w.3).sum();
         if sum != o.weight_used {
             v.fail(
@@ -1200,4 +1208,244 @@ pub fn c12_ack(sc: &Scenario, hx: &Hx, v: &mut Verdict) {
         v.probes.push("waker_changed_between_pending_polls");
     }
     v.nontrivial = overlapped || waker_changed;
+}
+
+/// C07 (concurrent half): "put never overwrites". Replays the worker's command stream in log
+/// order and tracks which keys are physically present; an Accepted put of a key that is present
+/// (and not past a TTL) at that moment has overwritten a readable key.
+pub fn c07_conc(_sc: &Scenario, hx: &Hx, v: &mut Verdict) {
+    use std::collections::HashMap;
+    if hx.first_shutdown_inv().is_some() {
+        return;
+    }
+    // key -> (key id, has ttl, value)
+    let mut present: HashMap<u32, (u64, bool, u64)> = HashMap::new();
+    let mut id_key: HashMap<u64, u32> = HashMap::new();
+    // ids whose removal (eviction / sweep) was logged; the removal of an entry can be logged before
+    // the worker logs the end of the put that created it
+    let mut removed: std::collections::HashSet<u64> = Default::default();
+    // keys whose entry may have received a TTL from an in-place upsert
+    let ttl_touched: std::collections::HashSet<u32> =
+        hx.writes.iter().filter(|w| matches!(&w.op, Op::Upsert { ttl: Some(_), .. })).map(|w| w.key).collect();
+    let mut raced = false;
+    for (s, _role, ev) in &hx.hooks {
+        match ev {
+            Hook::ApplyEnd { ack, st } => {
+                let w = match hx.widx.get(ack) {
+                    Some(ix) => &hx.writes[*ix],
+                    None => continue,
+                };
+                let kind = w.cmd_kind.as_deref().unwrap_or("");
+                if kind == "Put" || kind == "PutWithTTL" {
+                    if *st == St::Accepted {
+                        if let Some((old_id, has_ttl, old_val)) = present.get(&w.key) {
+                            if !*has_ttl && !ttl_touched.contains(&w.key) {
+                                v.fail(
+                                    "C07",
+                                    format!("C07/overwrote-readable/conc,variant={}", opname(&w.op)),
+                                    format!(
+                                        "{} was acknowledged Accepted while k{} was held (id {}, value {:x}, no TTL): the readable key was overwritten",
+                                        fmt_op(w), w.key, old_id, old_val
+                                    ),
+                                    *s,
+                                );
+                            }
+                        }
+                        let ttl = kind == "PutWithTTL";
+                        if !removed.contains(&w.key_id) {
+                            present.insert(w.key, (w.key_id, ttl, w.value().unwrap_or(0)));
+                        } else {
+                            present.remove(&w.key);
+                        }
+                        id_key.insert(w.key_id, w.key);
+                    } else if *st == St::RejExists {
+                        raced = true; // the worker-side existence check fired: a stale caller-side check
+                    }
+                } else if kind == "Delete" && *st == St::Accepted {
+                    present.remove(&w.key);
+                }
+            }
+            Hook::Evicted { id } | Hook::SweepExpired { id, .. } => {
+                removed.insert(*id);
+                if let Some(k) = id_key.get(id) {
+                    if present.get(k).map(|p| p.0 == *id).unwrap_or(false) {
+                        present.remove(k);
+                    }
+                }
+            }
+            _ => {}
+        }
+    }
+    // epilogue probe: keys that read as absent at quiescence must not be "already existing"
+    if let Some(o) = hx.obs_named("pre") {
+        for (k, st) in &hx.final_puts {
+            if *st == St::RejExists {
+                let entry = o.store.iter().find(|s| s.0 == *k);
+                let state = match entry {
+                    Some((_, _, _, true)) => "soft-deleted-with-no-delete-pending",
+                    Some((_, _, Some(e), false)) if o.clock > *e => "expired-unswept",
+                    Some(_) => "present-but-unreadable",
+                    None => "absent",
+                };
+                let sig = if state == "expired-unswept" {
+                    "C07/absent-rejected-as-existing/state=expired-unswept,op=put".to_string()
+                } else {
+                    format!("C07/absent-rejected-as-existing/conc,state={}", state)
+                };
+                v.fail(
+                    "C07",
+                    sig,
+                    format!("at quiescence k{} reads as absent ({}) yet put_with_weight is rejected with KeyAlreadyExists", k, state),
+                    hx.len,
+                );
+            }
+        }
+    }
+    // in-place upserts change values of present keys; they do not change presence
+    if raced {
+        v.probes.push("worker_side_existence_check_fired");
+    }
+    v.nontrivial = raced;
+}
+
+/// C08 (concurrent half): unawaited upserts by the only writer of a key. At quiescence the charged
+/// weight and the value of the key are those of the owner's last effective operation.
+pub fn c08_conc(sc: &Scenario, hx: &Hx, v: &mut Verdict) {
+    if hx.first_shutdown_inv().is_some() {
+        return;
+    }
+    let o = match hx.obs_named("pre") {
+        Some(o) => o,
+        None => return,
+    };
+    let mut unawaited_pair = false;
+    for k in 0..sc.cfg.keys {
+        let mut ws: Vec<&WriteRec> = hx.writes_of_key(k).collect();
+        if ws.is_empty() || ws.iter().any(|w| w.t != ws[0].t) {
+            continue;
+        }
+        ws.sort_by_key(|w| w.inv);
+        // expected (weight, value) after replaying the owner's operations in program order
+        let mut cur: Option<(i64, u64)> = None;
+        let mut known = true;
+        for (i, w) in ws.iter().enumerate() {
+            if i > 0 {
+                // was the previous command still in flight when this call was made?
+                let prev = ws[i - 1];
+                if prev.queued() && prev.acked.map(|a| a > w.inv).unwrap_or(true) {
+                    unawaited_pair = true;
+                }
+            }
+            if w.refused {
+                continue; // refused on the documented precondition: no effect
+            }
+            let st = match w.status() {
+                Some(s) => s,
+                None => {
+                    known = false;
+                    break;
+                }
+            };
+            match &w.op {
+                Op::Put { val, weight, ttl, .. } => {
+                    if ttl.is_some() {
+                        known = false;
+                        break;
+                    }
+                    if st == St::Accepted {
+                        cur = Some((weight.unwrap_or_else(|| weight_of(&sc.cfg.weight_fn, k, *val, false)), *val));
+                    } else if st != St::RejExists {
+                        known = false;
+                        break;
+                    }
+                }
+                Op::Upsert { val, weight, ttl, remove_ttl, .. } => {
+                    if ttl.is_some() || *remove_ttl {
+                        known = false;
+                        break;
+                    }
+                    let put_like = matches!(w.cmd_kind.as_deref(), Some("Put") | Some("PutWithTTL"));
+                    if put_like {
+                        if st == St::Accepted {
+                            let v0 = val.unwrap_or(0);
+                            cur = Some((weight.unwrap_or_else(|| weight_of(&sc.cfg.weight_fn, k, v0, false)), v0));
+                        } else if st != St::RejExists {
+                            known = false;
+                            break;
+                        }
+                    } else {
+                        // in place: needs an entry to act on
+                        match cur {
+                            Some((cw, cv)) => {
+                                let nv = val.unwrap_or(cv);
+                                let nw = weight.or_else(|| val.map(|x| weight_of(&sc.cfg.weight_fn, k, x, false))).unwrap_or(cw);
+                                cur = Some((nw, nv));
+                            }
+                            None => {
+                                known = false;
+                                break;
+                            }
+                        }
+                    }
+                }
+                Op::Delete { .. } => {
+                    if st == St::Accepted || st == St::RejNoKey {
+                        cur = None;
+                    } else {
+                        known = false;
+                        break;
+                    }
+                }
+                _ => {}
+            }
+        }
+        if !known {
+            continue;
+        }
+        let entry = o.store.iter().find(|s| s.0 == k);
+        match (cur, entry) {
+            (Some((w_exp, v_exp)), Some(e)) => {
+                let charged = o.weights.iter().find(|w| w.0 == e.1).map(|w| w.3);
+                if charged != Some(w_exp) {
+                    v.fail(
+                        "C08",
+                        "C08/weight-not-applied/conc".to_string(),
+                        format!("k{}: after the owner's operations the charged weight must be {}, the cache charges {:?}", k, w_exp, charged),
+                        hx.len,
+                    );
+                }
+                if let Some((_, _, got)) = hx.final_reads.iter().find(|f| f.1 == k) {
+                    if *got != Some(v_exp) {
+                        v.fail(
+                            "C08",
+                            "C08/value-not-applied/conc".to_string(),
+                            format!("k{}: the owner's last effective value is {:x}, the cache returns {:x?}", k, v_exp, got),
+                            hx.len,
+                        );
+                    }
+                }
+            }
+            (Some((_, v_exp)), None) => {
+                v.fail(
+                    "C08",
+                    "C08/accepted-but-lost/conc".to_string(),
+                    format!("k{}: the owner's operations leave value {:x} in the cache (nothing can be evicted), but the key is gone", k, v_exp),
+                    hx.len,
+                );
+            }
+            (None, Some(e)) => {
+                v.fail(
+                    "C08",
+                    "C08/unexpected-entry/conc".to_string(),
+                    format!("k{}: the owner's operations leave the key absent, but the store holds id {}", k, e.1),
+                    hx.len,
+                );
+            }
+            (None, None) => {}
+        }
+    }
+    if unawaited_pair {
+        v.probes.push("upsert_issued_while_previous_command_of_same_key_in_flight");
+    }
+    v.nontrivial = unawaited_pair;
 }
